@@ -40,6 +40,13 @@ struct ElemStr { // heap-owning -> pointer loser trees; lifetime errors become A
     static const char* name() { return "ElemStr"; }
 };
 
+VERIF_MISLEADING_ORDER(Elem8, key)
+VERIF_MISLEADING_EQUALITY(Elem8, key)
+VERIF_MISLEADING_ORDER(Elem32, key)
+VERIF_MISLEADING_EQUALITY(Elem32, key)
+VERIF_MISLEADING_ORDER(ElemStr, key)
+VERIF_MISLEADING_EQUALITY(ElemStr, key)
+
 template <typename E> struct KeyLess { bool operator()(const E& a, const E& b) const { return a.key < b.key; } };
 template <typename E> struct KeyGreater { bool operator()(const E& a, const E& b) const { return a.key > b.key; } };
 
